@@ -118,11 +118,13 @@ func (c *compiler) write(bb *strings.Builder, i interface{}) {
 
 	switch t := i.(type) {
 	case time.Time:
+		// the formatted time is a string like any other: the name of its
+		// zone is data, and so is what a format quotes
 		if dtf, ok := c.ctx.Value("TIME_FORMAT").(string); ok {
-			bb.Write(unsafeGetBytes(t.Format(dtf)))
+			bb.Write(unsafeGetBytes(template.HTMLEscaper(t.Format(dtf))))
 			return
 		}
-		bb.Write(unsafeGetBytes(t.Format(DefaultTimeFormat)))
+		bb.Write(unsafeGetBytes(template.HTMLEscaper(t.Format(DefaultTimeFormat))))
 	case *time.Time:
 		c.write(bb, *t)
 	case interfaceable:
